@@ -22,6 +22,8 @@ def gen_small(rng, kinds):
             have.setdefault("c", []).append(len(objs)); objs.append("cu"); objs.append("e")
         elif k == "o":
             have.setdefault("o", []).append(len(objs)); objs.append("o"); objs.append("m")
+        elif k == "b":
+            have.setdefault("b", []).append(len(objs)); objs.append("b2")
     nchild = rng.choice([1, 1, 2])
     closure = 1 + nchild if "o" in have else None
 
@@ -62,6 +64,9 @@ def gen_small(rng, kinds):
             elif k == "o":
                 o = rng.choice(have["o"])
                 ops.append(rng.choice(["co%d.%d" % (o, closure), "ic%d" % o]))
+            elif k == "b":
+                if not any(x.startswith("bw") for x in ops):
+                    ops.append("bw%d" % rng.choice(have["b"]))
         # a `tl` may leave a guard: release happens implicitly at the end of the body and is logged; keep such programs out
         return ops
     bodies = []
@@ -105,18 +110,42 @@ def run(tier):
     # directed: the witnesses of F5
     progs.append(("a0,a0,cu,e", "sp1;rc2;tc2|sd2.1.1;dt2.1;dt2.0;dt2.2"))
     progs.append(("a0,a0,o,m", "sp1;a0.st.1;ic2;jn0|co2.2|a0.ld"))
+    progs.append(("a0,b2", "sp1;a0.ld;bw1;jn0|a0.st.1;bw1"))
+    # four arrivals at a barrier of two: which pairs form, and who completes each, depends on choice points before the arrivals
+    progs.append(("a0,b2", "sp1;sp2;sp3;bw1;jn0;jn1;jn2|a0.st.1;bw1|bw1|a0.ld;bw1"))
+    # rendezvous channel: try_send succeeds only if the receiver is already waiting
+    progs.append(("a0,c0,e", "sp1;a0.ld;ts1.0.5;dt1.0;dt1.1;dt1.2;jn0|a0.st.1;rc1"))
+    progs.append(("a0,c1,e", "sp1;a0.ld;ts1.0.5;ts1.0.6;dt1.0;dt1.1;dt1.2;jn0|a0.st.1;rc1;a0.ld;tc1"))
     while len(progs) < n:
-        kinds = rng.choice([[], ["m"], ["w"], ["s"], ["c"], ["o"], ["m", "s"], ["c", "m"], ["o", "m"]])
+        kinds = rng.choice([[], ["m"], ["w"], ["s"], ["c"], ["o"], ["m", "s"], ["c", "m"], ["o", "m"], ["b"], ["b"]])
         p = gen_small(rng, kinds)
         if p:
             progs.append(p)
     cases = ["outcomes 20000 none %s %s" % p for p in progs]
     io = ctx.run_impl("prog", cases)
     ctx.evaluations += len(cases)
+    # the same enumeration on the verified model (its check_dfs over the same program): an outcome the model reaches and the
+    # runtime does not is a failing input whatever else is known about the program
+    mo_out = ctx.run_model("prog", cases)
     nv = 0
-    stats = {"checked": 0, "skipped_unsupported": 0, "skipped_incomplete": 0, "spec_outcomes": 0}
+    stats = {"checked": 0, "skipped_unsupported": 0, "skipped_incomplete": 0, "spec_outcomes": 0, "compared_with_model": 0}
+    for c, o, m_ in zip(cases, io, mo_out):
+        if " complete=1 " in o + " " and " complete=1 " in m_ + " ":
+            impl_ = set(o.split(" ", 2)[2].split("|")) if len(o.split(" ", 2)) > 2 else set()
+            mod_ = set(m_.split(" ", 2)[2].split("|")) if len(m_.split(" ", 2)) > 2 else set()
+            stats["compared_with_model"] += 1
+            lost = sorted(mod_ - impl_)
+            if lost:
+                nv += 1
+                if nv <= 5:
+                    ctx.violation({"layer": "prog", "cases": [c], "unreachable_outcomes": lost[:5], "reachable": sorted(impl_)[:10],
+                                   "why": "%d outcome(s) that the verified model reaches (Props/C02.v: a scheduling point precedes every visible operation except the listed blocking steps) are produced by no schedule the runtime offers" % len(lost)})
+                continue
     for c, o in zip(cases, io):
-        sp = spec.outcomes(c)
+        try:
+            sp = spec.outcomes(c)
+        except spec.Unsupported:
+            sp = None
         if sp is None:
             stats["skipped_unsupported"] += 1
             continue
@@ -137,6 +166,8 @@ def run(tier):
                 tag = "F5b"
             elif "sv" in body and "F5c" in known:
                 tag = "F5c"
+            elif "bw" in body and "F5d" in known:
+                tag = "F5d"
             if tag:
                 ctx.known(tag, known[tag]["what"])
                 continue
@@ -150,9 +181,9 @@ def run(tier):
                 ctx.violation({"layer": "prog", "cases": [c], "impossible_outcomes": extra[:5],
                                "why": "the runtime produced outcome(s) that no sequentially consistent interleaving allows (specification interpreter tools/spec.py)"})
     ctx.cov["c02_stats"] = stats
-    ctx.cov["rule"] = ctx.cov.get("rule", "") + " EXPLORATION: " + ("small programs (main + 1-2 children, 1-4 operations each over atomics, Mutex, RwLock, unfair semaphores, unbounded channels with endpoint drops, Once) ; the real runtime's whole choice tree is enumerated "
+    ctx.cov["rule"] = ctx.cov.get("rule", "") + " EXPLORATION: " + ("small programs (main + 1-2 children, 1-4 operations each over atomics, Mutex, RwLock, unfair semaphores, unbounded channels with endpoint drops, Once, Barrier) ; the real runtime's whole choice tree is enumerated "
                        "with DfsScheduler (complete enumerations only) and the set of outcomes (per-task results + termination) compared with the set computed by an independent interpreter in which every visible operation "
-                       "is one atomic step. non-trivial = programs with more than one SC outcome")
+                       "is one atomic step; the same enumeration is made on the extracted model (check_dfs of Lang/Prog.v) and an outcome the model reaches but the runtime does not is a failing input. non-trivial = programs with more than one SC outcome")
     ctx.sample({"case": cases[0], "impl": io[0][:300]})
     ctx.sample({"case": cases[5], "impl": io[5][:300]})
     ctx.log("C02: %s" % stats)
